@@ -415,6 +415,11 @@ def random_case(draw):
         a = dict(cls='length', mag=2.0)
     if isinstance(b['mag'], list) and b['cls'] == 'number' and isinstance(a['mag'], list) and len(a['mag']) != len(b['mag']):
         b['mag'] = (b['mag'] * 4)[:len(a['mag'])]
+    for x in (a, b):
+        # an all-zero plain sequence is not generated (whether [0, 0] counts as "a bare zero" is not stated); resizing
+        # above can produce one
+        if x['cls'] == 'number' and isinstance(x['mag'], list) and all(v == 0 for v in x['mag']):
+            x['mag'] = [3.0] + list(x['mag'][1:])
     return dict(kind='binary', op=op, a=a, b=b)
 
 
